@@ -13,14 +13,15 @@ TECHNIQUE = ('static analysis: abstract reconstruction of the <=7-node tree desc
 RULES = {
     'C17.R1': 'locality: terminals are identity(dim)/zero_idx(dim,row) modified only at [row,row]/bias[row]; decisions are unit(dim,row) modified only at [0,row]/bias[0]; row is the parameter',
     'C17.R2': 'one-dimensional piece tables by order type: ReLU, leaky ReLU, hard tanh, hard shrink, hard sigmoid, threshold select the textbook piece in every order type of x_row vs the thresholds (breakpoints included)',
+    'C17.R4': 'from_slice + remove_axes as restriction: slice keeps exactly the NaN axes, remove_axes rewrites every node (full traversal) with the kept columns and the matching in_dim',
     'C17.R3': 'chains and heads: from_poly / class_characterization / inf_norm attach the outside value on label 0 and continue on label 1; argmax keeps the invariant (candidate a, current first maximum c) per node',
 }
 CONTROL_REV = '078b142'  # thorough tier: the rules must still report the defects found (and since fixed) on the original tree
 CONTROLS = [('C17.R2', 'partial_hard_shrink')]
-FLOORS = {'C17.R1': 6, 'C17.R2': 6, 'C17.R3': 4}
+FLOORS = {'C17.R1': 6, 'C17.R2': 6, 'C17.R3': 4, 'C17.R4': 4}
 EXPLANATION = ('The generator code is straight-line; its tree (decisions s·x_row <= t, leaves (slope, offset)) is reconstructed from the from_aff/add_child_node calls and the point '
                'writes on the affine forms, and interpreted over the finite set of order types of x_row relative to the thresholds under the generator\'s own assertions.')
-DOES_NOT_DECIDE = 'values of the chain generators for all dims beyond the label discipline, from_slice + remove_axes as restriction, AffFunc::slice'
+DOES_NOT_DECIDE = 'values of the chain generators for all dims beyond the label discipline; numeric content'
 
 X = ('param', '__x__')
 
@@ -273,6 +274,27 @@ def run(ctx):
             ctx.ok('C17.R2', gen, '%s: the selected leaf equals the textbook piece in all %d (parameter ordering, order type) cases' % (spec['doc'], cases), b.span)
     chains(ctx, F)
     argmax(ctx, F)
+    restriction(ctx, F)
+
+
+def restriction(ctx, F):
+    """C17.R4: from_slice followed by remove_axes is the restriction to the slice: from_slice is the slice function as a one-node tree,
+    remove_axes rewrites every node with the kept columns and sets in_dim accordingly (rules shared with C04.R2 / C16.R2)."""
+    from ..core import Ctx
+    from . import c04, c16
+    sub = Ctx(ctx.facts, ctx.tier, ctx.prop)
+    c04.r2(sub)
+    c16.slice_ctor(sub, F)
+    for i in sub.insts:
+        if i.site.startswith('AffTree::remove_axes#') or i.site == 'AffFuncBase::slice':
+            i.rule = 'C17.R4'
+            ctx.insts.append(i)
+    b = ctx.body('C17.R4', 'AffTree::from_slice')
+    if b is not None:
+        R = Resolver(b)
+        rets = [e for _, e in R.return_expr()]
+        ok = len(rets) == 1 and is_call(rets[0], 'AffTree::from_aff') and is_call(rets[0][2][0], 'AffFuncBase::slice') and rets[0][2][0][2][0] == ('param', 'reference_point')
+        (ctx.ok if ok else ctx.bad)('C17.R4', 'AffTree::from_slice', 'from_aff(slice(reference_point))' if ok else 'from_slice is not the slice function of its argument', b.span)
 
 
 def chains(ctx, F):
